@@ -78,6 +78,17 @@ func buildWeb(r *rand.Rand, s *sim.Sim, nURL int, budget int, tag string, profil
 	base := make([]string, nURL)
 	for i := range base {
 		base[i] = mk(i)
+		// every fourth address has a twin on the same host that differs only in letter case (path or query)
+		if i%4 == 1 && i > 0 {
+			prev, _ := url.Parse(base[i-1])
+			if i%8 == 1 {
+				base[i-1] = fmt.Sprintf("https://%s/%s/r/Twin%dx", prev.Host, tag, i)
+				base[i] = fmt.Sprintf("https://%s/%s/r/twin%dX", prev.Host, tag, i)
+			} else {
+				base[i-1] = fmt.Sprintf("https://%s/%s/r/%d?Key=Value", prev.Host, tag, i)
+				base[i] = fmt.Sprintf("https://%s/%s/r/%d?key=value", prev.Host, tag, i)
+			}
+		}
 	}
 	// planned long chains around the budget: base[c], base[c+1], ... each redirecting to the next
 	chainNext := map[int]int{}
